@@ -645,6 +645,66 @@ def nan_free(p: bytes, im: Impl) -> bool:
     return ok and "nan" not in repr(canon(v))
 
 
+def _scribble(v, depth=0):
+    """modify a decoded result in place as an addon editing it would: clear/overwrite every mutable container reachable from it"""
+    if depth > 3:
+        return
+    if _PROXY and isinstance(v, _PROXY):
+        try:
+            v = v.__wrapped__
+        except Exception:
+            return
+    if isinstance(v, dict):
+        for x in list(v.values()):
+            _scribble(x, depth + 1)
+        for k in list(v.keys()):
+            try:
+                v[k] = "scribbled"
+            except Exception:
+                pass
+    elif isinstance(v, list):
+        for x in v:
+            _scribble(x, depth + 1)
+        del v[:]
+    elif isinstance(v, bytearray):
+        v[:] = b""
+    elif dataclasses.is_dataclass(v) and not isinstance(v, type):
+        for f in dataclasses.fields(v):
+            x = getattr(v, f.name, None)
+            if isinstance(x, (dict, list, bytearray)) or (dataclasses.is_dataclass(x) and not isinstance(x, type)):
+                _scribble(x, depth + 1)
+            else:
+                try:
+                    setattr(v, f.name, None)
+                except Exception:
+                    pass
+
+
+def check_repeatable(im: Impl, p: bytes):
+    """the hand-optimised decoder is a function of the payload: decoding p, editing the returned values in place, and decoding p
+    again must give what the template gives (no decoded object is shared between calls)"""
+    F = im.objects.FastObjectUpdateCompressedDataDeserializer
+    okd, vd, trailing = im.decl(p)
+    if not okd or trailing:
+        return None
+    try:
+        r1 = F.read(p)
+        want = {k: canon(x) for k, x in dict(vd).items()}
+        got1 = {k: canon(x) for k, x in dict(r1).items()}
+        _scribble(r1)
+        r2 = F.read(p)
+        got2 = {k: canon(x) for k, x in dict(r2).items()}
+    except Exception as e:   # noqa
+        return None
+    if got1 != got2:
+        bad = sorted(k for k in set(got1) | set(got2) if got1.get(k) != got2.get(k))
+        return {"payload": p.hex(), "domain": True, "clause": "the two decoders produce equal field values - on every call: the hand-optimised "
+                "decoder returns fresh values (editing one result does not change the next decode of the same payload)",
+                "class": "fast-decode-not-repeatable", "field": bad[0] if bad else "?",
+                "agrees_with_template_first_time": all(want.get(k) == got1.get(k) for k in want if k in got1)}
+    return None
+
+
 def check_property(im: Impl, p: bytes, domain):
     """None, or a dict describing which clause fails on payload p.
     domain=("sweep", base, offset, value): a byte-built payload: as a mutation, plus the re-encode clause (see below).
@@ -1149,6 +1209,8 @@ def correspond(ctx):
     viol_seen = set()
     for i, (kind, p, domain) in enumerate(cases):
         v = check_property(im, p, domain)
+        if not v and domain is True and i % 7 == 0:
+            v = check_repeatable(im, p)
         if v:
             v["kind"] = kind
             key = (v["class"], v.get("field"))
@@ -1243,8 +1305,15 @@ def search(ctx, hints):
                 if fresh(v):
                     return shrink(im, v)
     gen = Gen(ctx.rng, im)
+    n_rep = 0
     for kind, p, domain in gen_cases(ctx, im, gen):
         v = check_property(im, p, domain)
+        if not v and domain is True and n_rep < 400:
+            n_rep += 1
+            v = check_repeatable(im, p)
+            if v:
+                v["kind"] = kind
+                return v
         if fresh(v):
             v["kind"] = kind
             return shrink(im, v)
@@ -1253,6 +1322,9 @@ def search(ctx, hints):
 
 def replay(ctx, case):
     im = impl()
+    if case.get("class") == "fast-decode-not-repeatable":
+        v = check_repeatable(im, bytes.fromhex(case["payload"]))
+        return (v is not None), (v or "holds")
     dm = case.get("domain", True)
     v = check_property(im, bytes.fromhex(case["payload"]), tuple(dm) if isinstance(dm, (list, tuple)) else bool(dm))
     return (v is not None), (v or "holds")
